@@ -2,6 +2,15 @@
 // UnpublishTunnel / ReleaseTunnel (+ a concurrently held lease, failing Put/Delete calls) run against the real
 // handlers of tun/server over one recording in-memory DHT; after every call the whole DHT (routes, hostname
 // registrations, custom bindings) is printed and compared with the Lean model and the executable statement.
+//
+// Concurrency: two or three requests (of the same or of different clients) run CONCURRENTLY through the real
+// handlers while a deterministic scheduler sits in front of the DHT: every KV call of an in-flight request
+// (Acquire / PrefixContains / Get / Put / Delete / PrefixRemove / Release — the natural yield points of the
+// handlers) blocks until the scheduler grants it, one call at a time. The scheduler waits until every goroutine of
+// the process is parked, then picks the request and which of its pending promise.All jobs runs next. Plans: a
+// WINDOW (request 0 executes p KV calls, then the other requests run entirely, then request 0 continues) for every
+// p, and random fine-grained interleavings. Each granted call is one `cs` line (call, result, whole DHT), the end of
+// the scenario a `cend` line (returned codes, whole DHT) on which the statement is judged.
 package main
 
 import (
@@ -30,11 +39,24 @@ type client struct {
 	cn  string // certificate CommonName
 }
 
+// creq is one request of a concurrent scenario.
+type creq struct {
+	tid     int
+	op      string // pub | unpub | rel
+	c       client
+	h       string
+	srvToks []string
+	code    string
+	pubd    string
+}
+
 func main() {
 	r := hlib.Start()
 	r.Rule = "one case = a history of 10..40 calls by 2..4 clients over one DHT; non-trivial = distinct call line (op, caller, hostname kind, server list, faults) in a distinct history position; " +
 		"hostnames: own (generated or custom-bound), foreign (another client's), never registered, already released; server lists: 0..6 entries with nil nodes, duplicates, " +
-		"unknown servers and spoofed Id/Rendezvous fields; faults: failing Put/Delete per route slot, failing custom-hostname Delete, lease held by a concurrent call"
+		"unknown servers and spoofed Id/Rendezvous fields; faults: failing Put/Delete per route slot, failing custom-hostname Delete, lease held by a concurrent call; " +
+		"concurrent scenarios: 2..3 overlapping publish/unpublish/release requests of the same or of different clients, interleaved at KV-call granularity by a deterministic scheduler " +
+		"(every window position p of request 0 x {publish 1..3 servers, unpublish, release} x {publish, unpublish, release} x {same client, other client} x {routes present or not}, plus random interleavings)"
 	rng := hlib.NewRng(r.Seed)
 	logger := zap.NewNop()
 	ctx := context.Background()
@@ -42,8 +64,9 @@ func main() {
 	tunnelID := &protocol.Node{Id: 11, Address: "s1"}
 	chordID := &protocol.Node{Id: 12, Address: "c1"}
 	node := rig.NewRecNode(chordID)
+	gate := &gateNode{RecNode: node}
 	srv := server.New(server.Config{
-		ParentContext: ctx, Logger: logger, Chord: node, TunnelTransport: rig.NewTransport(tunnelID),
+		ParentContext: ctx, Logger: logger, Chord: gate, TunnelTransport: rig.NewTransport(tunnelID),
 		ChordTransport: rig.NewTransport(chordID), Apex: "example.com", Acme: "acme.example.com",
 	})
 
@@ -251,6 +274,143 @@ func main() {
 		r.Count("op:hold")
 	}
 
+	// --- concurrent scenarios ---
+	leaseKeys, prefixKeys, destKeys := map[string]string{}, map[string]string{}, map[string]string{}
+	for _, c := range clients {
+		t := &protocol.ClientToken{Token: []byte(c.tok)}
+		leaseKeys[tun.ClientLeaseKey(t)] = c.tok
+		prefixKeys[tun.ClientHostnamesPrefix(t)] = c.tok
+	}
+	for _, a := range []string{"s1", "s2", "s3", "s4", "s9"} {
+		destKeys[tun.DestinationByTunnelKey(&protocol.Node{Address: a})] = a
+	}
+	gate.name = func(op string, key, child []byte) string {
+		k := string(key)
+		switch op {
+		case "acquire", "unlock":
+			if t, ok := leaseKeys[k]; ok {
+				return op + " " + t
+			}
+		case "contains", "premove":
+			if t, ok := prefixKeys[k]; ok && len(child) > 0 && !strings.ContainsAny(string(child), " \n") {
+				return op + " " + t + " " + string(child)
+			}
+		case "get":
+			if a, ok := destKeys[k]; ok {
+				return "get " + a
+			}
+		case "put", "del":
+			if rest, ok := strings.CutPrefix(k, "/tunnel/bundle/"); ok {
+				if i := strings.LastIndex(rest, "/"); i > 0 {
+					return op + " " + rest[:i] + " " + rest[i+1:]
+				}
+			}
+			if h, ok := strings.CutPrefix(k, "/tunnel/client/custom/"); ok && op == "del" {
+				return "delcustom " + h
+			}
+		}
+		return "other " + op + " " + hlib.HexS(k) + " " + hlib.Hex(child)
+	}
+	// conc runs the requests concurrently under the plan; the injected faults hold for the whole scenario.
+	// It returns the number of KV calls request 0 executed.
+	conc := func(reqs []*creq, slots []int, cf bool, pl plan, label string) int {
+		node.FailPut = map[string]error{}
+		for _, q := range reqs {
+			for _, k := range slots {
+				node.FailPut[tun.RoutingKey(q.h, k)] = errors.New("injected kv failure")
+			}
+			if cf {
+				node.FailPut[tun.CustomHostnameKey(q.h)] = errors.New("injected kv failure")
+			}
+		}
+		cfTok := "0"
+		if cf {
+			cfTok = "1"
+		}
+		key := label
+		for _, q := range reqs {
+			lhs := "creq " + strconv.Itoa(q.tid) + " " + q.op + " " + q.c.tok + " " + strconv.FormatUint(q.c.id, 10) + " " + q.h
+			switch q.op {
+			case "pub":
+				lhs += " " + hlib.Join(q.srvToks, ",") + " " + slotTok(slots)
+			case "unpub":
+				lhs += " " + slotTok(slots)
+			default:
+				lhs += " " + slotTok(slots) + " " + cfTok
+			}
+			r.Emit(lhs, "ok")
+			key += "|" + lhs
+		}
+		var fin atomic.Int32
+		gate.active.Store(true)
+		for _, q := range reqs {
+			q := q
+			go func() {
+				rctx := withTid(callCtx(q.c), q.tid)
+				q.pubd = "-"
+				q.code = guard(func() string {
+					switch q.op {
+					case "pub":
+						var nodes []*protocol.Node
+						for i, t := range q.srvToks {
+							if t == "n" {
+								nodes = append(nodes, nil)
+								continue
+							}
+							nodes = append(nodes, &protocol.Node{Address: t[1:], Id: uint64(1000*i) + q.c.id, Rendezvous: i%2 == 0})
+						}
+						resp, err := srv.PublishTunnel(rctx, &protocol.PublishTunnelRequest{Hostname: q.h, Servers: nodes})
+						if err == nil {
+							var p []string
+							for _, n := range resp.GetPublished() {
+								p = append(p, n.GetAddress())
+							}
+							q.pubd = hlib.Join(p, ",")
+						}
+						return codeOf(err)
+					case "unpub":
+						_, err := srv.UnpublishTunnel(rctx, &protocol.UnpublishTunnelRequest{Hostname: q.h})
+						return codeOf(err)
+					default:
+						_, err := srv.ReleaseTunnel(rctx, &protocol.ReleaseTunnelRequest{Hostname: q.h})
+						return codeOf(err)
+					}
+				})
+				fin.Add(1)
+			}()
+		}
+		steps0 := 0
+		hang := gate.schedule(len(reqs), func() int { return int(fin.Load()) }, pl, func(sr stepRec) {
+			if sr.tid == 0 {
+				steps0++
+			}
+			r.Emit("cs "+strconv.Itoa(sr.tid)+" "+sr.desc, sr.res+" "+digest())
+			key += "|" + strconv.Itoa(sr.tid) + ":" + sr.desc
+			r.Count("kv:" + strings.Fields(sr.desc)[0] + "/" + sr.res)
+		})
+		gate.drain()
+		if hang {
+			for i := 0; i < 5000 && int(fin.Load()) < len(reqs); i++ {
+				time.Sleep(time.Millisecond)
+			}
+			if int(fin.Load()) < len(reqs) {
+				r.Emit("cend", "hang "+digest())
+				r.Finish()
+				os.Exit(0)
+			}
+		}
+		node.FailPut = map[string]error{}
+		var outs, kinds []string
+		for _, q := range reqs {
+			outs = append(outs, strconv.Itoa(q.tid)+":"+q.code+":"+q.pubd)
+			kinds = append(kinds, q.op+"="+q.code)
+		}
+		r.Emit("cend", hlib.Join(outs, ";")+" "+digest())
+		r.Case(key)
+		r.Count("conc:" + label + "/" + hlib.Join(kinds, "+"))
+		return steps0
+	}
+
 	if r.Replay != "" {
 		byTok := map[string]client{}
 		for _, c := range clients {
@@ -275,6 +435,10 @@ func main() {
 		}
 		lines, _ := readReplay(r.Replay)
 		started := false
+		var creqs []*creq
+		var script [][2]string
+		var cslots []int
+		ccf := false
 		for _, ln := range lines {
 			t := strings.Fields(ln.lhs)
 			if len(t) == 0 {
@@ -306,10 +470,111 @@ func main() {
 				rel(byTok[t[1]], name(t[3]), slotsOf(t[4]), t[5] == "1", "replay")
 			case "hold":
 				hold(byTok[t[1]], t[2] == "1")
+			case "creq":
+				if len(t) < 7 {
+					continue
+				}
+				tid, _ := strconv.Atoi(t[1])
+				q := &creq{tid: tid, op: t[2], c: byTok[t[3]], h: name(t[5])}
+				switch q.op {
+				case "pub":
+					if t[6] != "-" {
+						q.srvToks = strings.Split(t[6], ",")
+					}
+					if len(t) > 7 {
+						cslots = slotsOf(t[7])
+					}
+				case "unpub":
+					cslots = slotsOf(t[6])
+				default:
+					cslots = slotsOf(t[6])
+					ccf = len(t) > 7 && t[7] == "1"
+				}
+				creqs = append(creqs, q)
+			case "cs":
+				if len(t) >= 3 {
+					d := t[2:]
+					for i := range d { // generated hostnames are renamed
+						d[i] = name(d[i])
+					}
+					script = append(script, [2]string{t[1], strings.Join(d, " ")})
+				}
+			case "cend":
+				if len(creqs) > 0 {
+					conc(creqs, cslots, ccf, scriptPlan(script), "replay")
+				}
+				creqs, script, cslots, ccf = nil, nil, nil, false
 			}
+		}
+		if len(creqs) > 0 { // the recorded case ended inside a scenario
+			conc(creqs, cslots, ccf, scriptPlan(script), "replay")
 		}
 		r.Finish()
 		return
+	}
+
+	// --- directed concurrent scenarios: every window position of request 0 ---
+	type akind struct {
+		op  string
+		srv []string
+	}
+	aKinds := []akind{{"pub", []string{"as1"}}, {"pub", []string{"as2", "as1"}}, {"pub", []string{"as3", "n", "as1", "as3", "as2"}}, {"unpub", nil}, {"rel", nil}}
+	bKinds := []akind{{"pub", []string{"as4", "as2"}}, {"unpub", nil}, {"rel", nil}}
+	directed := func(ak, bk akind, other, pre, custom bool, mode int, third *akind) {
+		for p := 0; ; p++ {
+			reset()
+			alice, bob := clients[0], clients[1]
+			var h string
+			if custom {
+				h = "shop.customer.net"
+				bind(alice, h)
+			} else if h = gen(alice); strings.HasPrefix(h, "err:") {
+				return
+			}
+			gen(bob)
+			if pre {
+				pub(alice, h, []string{"as2", "as3"}, nil, "own")
+			}
+			bc := alice
+			if other {
+				bc = bob
+			}
+			reqs := []*creq{{tid: 0, op: ak.op, c: alice, h: h, srvToks: ak.srv}, {tid: 1, op: bk.op, c: bc, h: h, srvToks: bk.srv}}
+			if third != nil {
+				reqs = append(reqs, &creq{tid: 2, op: third.op, c: alice, h: h, srvToks: third.srv})
+			}
+			label := "window"
+			if other {
+				label = "window-other"
+			}
+			n0 := conc(reqs, nil, false, windowPlan(p, mode), label)
+			// afterwards the hostname can be claimed again (custom) or is gone for good: a sequential epilogue
+			pub(alice, h, []string{"as1"}, nil, "after")
+			if custom && !strings.Contains(digest(), alice.tok+"|"+h) {
+				bind(bob, h) // the released custom hostname is claimed by another client
+				pub(bob, h, []string{"as4"}, nil, "after")
+			}
+			if p >= n0 {
+				return
+			}
+		}
+	}
+	for ai, ak := range aKinds {
+		for bi, bk := range bKinds {
+			for _, other := range []bool{false, true} {
+				for _, pre := range []bool{false, true} {
+					if other && !pre && !r.Thorough() {
+						continue
+					}
+					custom := (ai+bi)%2 == 1 && !other
+					directed(ak, bk, other, pre, custom, (ai+bi)%3, nil)
+					if r.Thorough() {
+						directed(ak, bk, other, pre, !custom && !other, (ai+bi+1)%3, nil)
+						directed(ak, bk, other, pre, custom, (ai+bi+2)%3, &bKinds[(ai+bi)%3])
+					}
+				}
+			}
+		}
 	}
 
 	histories := 150
@@ -358,6 +623,78 @@ func main() {
 						slots = append(slots, k)
 					}
 				}
+			}
+			if rng.Chance(10) {
+				// overlapping requests, mostly of the same client on the same hostname
+				nreq := 2
+				if rng.Chance(25) {
+					nreq = 3
+				}
+				var reqs []*creq
+				for i := 0; i < nreq; i++ {
+					q := &creq{tid: i, c: c, h: h}
+					if i > 0 && rng.Chance(25) {
+						q.c = hlib.Pick(rng, cs)
+					}
+					if i > 0 && rng.Chance(20) {
+						if len(owned[q.c.tok]) > 0 {
+							q.h = hlib.Pick(rng, owned[q.c.tok])
+						} else {
+							q.h = "ghost-" + strconv.Itoa(rng.Intn(3)) + ".example.org"
+						}
+					}
+					switch k := rng.Intn(100); {
+					case k < 50:
+						q.op = "pub"
+						n := 1 + rng.Intn(3)
+						if rng.Chance(10) {
+							n = rng.Intn(6)
+						}
+						for j := 0; j < n; j++ {
+							t := hlib.Pick(rng, srvPool)
+							if t == "as9" && rng.Chance(70) {
+								t = "as1"
+							}
+							q.srvToks = append(q.srvToks, t)
+						}
+					case k < 70:
+						q.op = "unpub"
+					default:
+						q.op = "rel"
+					}
+					reqs = append(reqs, q)
+				}
+				var pl plan
+				label := "random"
+				if rng.Chance(50) {
+					label = "window"
+					pl = windowPlan(rng.Intn(12), rng.Intn(9))
+				} else {
+					pl = func(step int, ready map[int][]*pendingCall) *pendingCall {
+						tids := make([]int, 0, len(ready))
+						for t := range ready {
+							tids = append(tids, t)
+						}
+						sort.Ints(tids)
+						cs := ready[hlib.Pick(rng, tids)]
+						return cs[rng.Intn(len(cs))]
+					}
+				}
+				conc(reqs, slots, rng.Chance(10), pl, label)
+				// bookkeeping from the DHT itself
+				d := digest()
+				for _, cl := range cs {
+					xs := owned[cl.tok][:0]
+					for _, x := range owned[cl.tok] {
+						if strings.Contains(d, cl.tok+"|"+x) {
+							xs = append(xs, x)
+						} else {
+							released = append(released, x)
+						}
+					}
+					owned[cl.tok] = xs
+				}
+				continue
 			}
 			switch op := rng.Intn(100); {
 			case op < 8:
